@@ -32,8 +32,13 @@ TRUSTED_BASE = [
     "integral_rms, polynomial_detrend; the noise generator classes as state machines, the IIR cascade and coefficient design, alpha_noise's corner "
     "placement, fftnoise's spectrum assembly, band_limited_noise's mask; the assembly of T / S / S00, the solver call and the residual formulas of "
     "the SISO / MISO functions. External routines enter the translated code as stated CONTRACTS (Lean definitions in SpecKitV/Np/*.lean, one sealed "
-    "`opaque` for scipy.lfilter's state on an empty block; never axioms), listed per property in `assumptions`/CONTRACTS. HAND-MODELLED and tied by "
-    "correspondence only: copy / pickle / DataFrame object protocol, df_detrend and the file loaders, plotting, the CUDA launch machinery",
+    "`opaque` for scipy.lfilter's state on an empty block; never axioms), listed per property in `assumptions`/CONTRACTS. Added in the fourth session: "
+    "core._build_Q (the reduced QR enters as ONE contract, a Gram-Schmidt definition equal to NumPy's Q up to column signs; the library's own basis is "
+    "PROVED to satisfy the basis contract of every detrending theorem), SpectrumAnalyzer.__init__ whole (defaults, validation, config table, shape "
+    "dispatch, sanitising), SpectrumResult.__init__, the module-level wrappers lpsd / compute_spectrum / compute_single_bin, core._select_backend, "
+    "core._check_starts_bounds, dsp.df_timeshift and dsp.df_detrend whole (frame value model). A downstream property's check carries the equality "
+    "theorems of the properties it is downstream of (coverage.upstream). HAND-MODELLED and tied by correspondence only: copy / pickle object "
+    "protocol, the file loaders, plotting, the CUDA launch machinery",
     "correspondence harness (vk/props/*.py) and Lean driver (lean/Driver.lean)",
     "modelled, not verified: CPython/Numba/LLVM/NVVM semantics, IEEE rounding and fastmath, GPU execution (CUDA simulator only), "
     "LAPACK QR / np.polyfit / np.linalg.solve,pinv / sympy.solve / scipy.signal.lfilter / np.fft / np.interp / numpy Generator (stated contracts)",
